@@ -8,7 +8,7 @@ SPEC = {
         "C18_constant_templates_total_prefix", "C18_prefix_protocol_refuted",
         "C18_annotation_label_blocks_total", "C18_unvalidated_block_key_crashes", "C18_reject_blocks_total",
         "C18_name_link_aggregate_blocks_total", "C18_block_model_matches_source",
-        "C18_every_dropped_error_is_validated", "C18_every_dropped_error_is_reviewed",
+        "C18_every_dropped_error_is_validated", "C18_validated_same_never_drops_an_error", "C18_every_dropped_error_is_reviewed",
         "C18_guard_check_rejects_unguarded_use", "C18_validation_reaches_every_block", "C18_every_option_is_validated_or_reviewed", "C18_nonvacuous"]},
     "harness_args": lambda tier: ["C18", "--n", 60 if tier == "quick" else 4000],
     "search_args": lambda tier: ["C18", "--n", 100, "--templates", "no"],
